@@ -35,105 +35,59 @@ def vr(v):
     return repr(v)
 
 
-LENGTH = [lambda piece: float(len(piece.indices))]
-LENGTHS = {'number of observations': lambda piece: float(len(piece.indices)), 'NaN (a missing coordinate)': lambda piece: float('nan'), 'zero (all fixes at one place)': lambda piece: 0.0}
+LENGTH = ['count']
+LENGTHS = {'number of observations': 'count', 'NaN (a missing coordinate)': 'nan', 'zero (all fixes at one place)': 'zero'}
 
 
 def _track_model(ctx, fn):
-    """abstract track for segmentation()/split(): named feature columns, inclusive extract() recording the index interval;
-    any other Track method is interpreted from the repository's own source with this object as self"""
+    """tracks for segmentation()/split(): the repository's own Track / Obs / ENUCoords / TrackCollection classes, interpreted.  Each
+    observation is tagged with its index; the positions are laid out so that length() of a piece is its number of legs, NaN, or zero
+    (LENGTH[0] names the layout)"""
     from .. import absint
+    import math
+    T = absint.classref(ctx, TRACK, fn)
+    EN = absint.classref(ctx, 'tracklib.core.obs_coords.ENUCoords', fn)
+    TC = absint.classref(ctx, 'tracklib.core.track_collection.TrackCollection', fn)
+    fn.setdefault('sqrt', math.sqrt)
+    fn.setdefault('hypot', math.hypot)
 
-    class Piece(orders.PyStub):
-        isa = ('Track',)
+    class View:
+        """what the rules read from a track: the feature columns by name"""
 
-        def __init__(self, a, b, n):
-            self.a, self.b = a, b
-            self.indices = list(range(a, b + 1)) if isinstance(a, int) and isinstance(b, int) else None
-            if self.indices is None or any(k < 0 or k >= n for k in self.indices):
-                raise IndexError('extract(%r, %r) on a track of %d observations' % (a, b, n))
-            self.uid = None
+        def __init__(self, t):
+            self.t = t
 
-        def setUid(self, u):
-            self.uid = u
+        def get(self, name, default=None):
+            try:
+                if not self.t.call('hasAnalyticalFeature', name):
+                    return default
+                return self.t.call('getAnalyticalFeature', name)
+            except (orders.Raised, KeyError, IndexError):
+                return default
 
-        def length(self):
-            # with limit = 0 no piece is filtered by its length: the answer must not depend on what length() returns
-            return LENGTH[0](self)
+    def TrackS(n, feats):
+        lay = LENGTH[0]
+        pos = {'count': lambda k: (float(k), 0.0, 0.0), 'nan': lambda k: (float(k), float('nan'), 0.0), 'zero': lambda k: (3.0, 4.0, 0.0)}[lay]
+        t = T([absint.real_obs(ctx, fn, EN(*pos(k)), None, k=k) for k in range(n)], 'U', 'T')
+        for nm_, vals_ in feats.items():
+            t.call('createAnalyticalFeature', nm_, list(vals_))
+        t.feats = View(t)
+        return t
 
-        def size(self):
-            return len(self.indices)
+    def indices(piece):
+        if not isinstance(piece, orders.Obj) or '_Track__POINTS' not in piece.fields:
+            return None
+        return [o.fields.get('k') if isinstance(o, orders.Obj) else None for o in piece.fields['_Track__POINTS']]
 
-        def __len__(self):
-            return len(self.indices)
-
-    class TrackS(orders.PyStub):
-        isa = ('Track',)
-        repo_methods = absint.methods_of(ctx, TRACK)
-        repo_funcs = fn
-
-        def __init__(self, n, feats):
-            self.n = n
-            self.feats = {k: list(v) for k, v in feats.items()}
-            self.uid, self.tid = 'U', 'T'
-
-        def size(self):
-            return self.n
-
-        def __len__(self):
-            return self.n
-
-        def hasAnalyticalFeature(self, name):
-            return name in self.feats
-
-        def getListAnalyticalFeatures(self):
-            return list(self.feats)
-
-        def getObsAnalyticalFeature(self, name, i):
-            return self.feats[name][i]
-
-        def getObsAnalyticalFeatures(self, names, i):
-            return [self.feats[k][i] for k in names]
-
-        def getAnalyticalFeature(self, name):
-            return list(self.feats[name])
-
-        def getAnalyticalFeatures(self, names):
-            return [list(self.feats[k]) for k in names]
-
-        def createAnalyticalFeature(self, name, val=0.0):
-            if name in self.feats:
-                return
-            self.feats[name] = list(val) if isinstance(val, list) else [val] * self.n
-
-        def setObsAnalyticalFeature(self, name, i, v):
-            self.feats[name][i] = v
-
-        def __getitem__(self, k):
-            if isinstance(k, tuple) and len(k) == 2:
-                return self.feats[k[0]][k[1]]
-            if isinstance(k, str):
-                return list(self.feats[k])
-            raise orders.Unsupported('track[%r]' % (k,))
-
-        def extract(self, a, b):
-            return Piece(a, b, self.n)
-
-    class Coll(orders.PyStub):
-        isa = ('TrackCollection',)
-
-        def __init__(self, *a_):
-            self.pieces = []
-
-        def addTrack(self, t):
-            self.pieces.append(t)
-
-        def size(self):
-            return len(self.pieces)
-
-        def __len__(self):
-            return len(self.pieces)
-    return TrackS, Piece, Coll
+    def pieces_of(coll):
+        if not isinstance(coll, orders.Obj):
+            return None
+        key = [k for k in coll.fields if k.endswith('TRACES')]
+        if len(key) != 1 or not isinstance(coll.fields[key[0]], list):
+            return None
+        out = [indices(p_) for p_ in coll.fields[key[0]]]
+        return None if any(x is None for x in out) else out
+    return TrackS, indices, pieces_of
 
 
 def rule_M(ctx):
@@ -229,8 +183,7 @@ def rule_T(ctx):
     tr, src, limit = f.params[:3]
     fn = absint.funcs(ctx, SEG, {})
     fn['__globals__'].update({'NAN': NAN})
-    TrackS, Piece, Coll = _track_model(ctx, fn)
-    fn['TrackCollection'] = lambda *a_: Coll()
+    TrackS, indices_of, pieces_of = _track_model(ctx, fn)
     bad_t = bad_e = None
     total = 0
     for (lname, lfun), n in itertools.product(LENGTHS.items(), range(1, 10 if ctx.tier == 'thorough' else 6)):
@@ -246,7 +199,7 @@ def rule_T(ctx):
             except (IndexError, KeyError, TypeError) as e:
                 res = '%s: %s' % (type(e).__name__, e)
             total += 1
-            pieces = [p_.indices for p_ in res.pieces] if isinstance(res, Coll) and all(isinstance(p_, Piece) for p_ in res.pieces) else None
+            pieces = pieces_of(res)
             case = {'marker': list(marks), 'length of every piece': lname, 'pieces (observation indices)': pieces if pieces is not None else repr(res)}
             if not any(marks):
                 if pieces != [] and bad_e is None:
